@@ -190,10 +190,10 @@ func C15DrawSpec(t *rapid.T) ref.C15Spec {
 // acceptance. Expect is "reject" (the stated validity rules exclude it) or
 // "free" (the statement and docs are silent; only totality is checked).
 type C15Inject struct {
-	Field  string `json:"field"` // times | weekdays | days_of_month | months | years | location
-	Token  string `json:"token,omitempty"`
-	Start  string `json:"start,omitempty"` // times only
-	End    string `json:"end,omitempty"`   // times only
+	Field string `json:"field"` // times | weekdays | days_of_month | months | years | location
+	Token string `json:"token,omitempty"`
+	Start string `json:"start,omitempty"` // times only
+	End   string `json:"end,omitempty"`   // times only
 	// Raw: Token is emitted as is (unquoted YAML), e.g. "~" for a null element.
 	Raw    bool   `json:"raw,omitempty"`
 	Expect string `json:"expect"`
